@@ -102,6 +102,7 @@ def render (o : Obs) : String :=
    | "closed" => "closed"
    | "close" => "close ok"
    | "call" => s!"call ret={o.ret} rc={o.rc} args={showArgs o.args}" ++ tailIO o
+   | "calls" => s!"calls ret={o.ret} rc={o.rc} args=-" ++ tailIO o
    | "loop" => s!"loop ret={o.ret} rc={o.rc} args=-" ++ tailIO o
    | "exec" => s!"exec ret={o.ret} rc={o.rc} args=-" ++ tailIO o
    | "setgbl" => s!"setgbl r=0 g={showArgs o.args}" ++ tail o
@@ -173,6 +174,9 @@ def step (s : St) (line : String) : St × String :=
   | ["open", c] => ctxOp s c .open "open"
   | ["close", c] => ctxOp s c .close "close"
   | "call" :: c :: fname :: args => ctxOp s c (fun c => .op c (.call fname (args.map parseArg))) "call"
+  | "calls" :: c :: fname :: args =>
+    ctxOp s c (fun c => .op c (.calls fname (args.map fun t => if t.startsWith "s:" then tagVal t else t))) "calls"
+  | ["incdirs", _] => (s, "incdirs ok")
   | ["loop", c] => ctxOp s c (fun c => .op c .loop) "loop"
   | ["exec", c] => ctxOp s c (fun c => .op c .exec) "exec"
   | ["setgbl", c, n, a] => ctxOp s c (fun c => .op c (.setgbl (n.toNat?.getD 0) (parseArg a))) "setgbl"
